@@ -121,6 +121,10 @@ def run(ctx):
         if case["general"]:
             ctx.hit("general_stream")
         check(ctx, case, reqs, pend)
+    for _ in range(ctx.n(16)):       # whole categories missing: cells without a valid row next to cells without a missing one
+        case = A.by_category_missing(ctx.rng, A.gen_case(ctx.rng, k=ctx.rng.choice([1, 2, 2, 3]), N=ctx.rng.choice([3, 5, 8, 13])))
+        ctx.hit("by_category_missing")
+        check(ctx, case, reqs, pend)
     for _ in range(ctx.n(5)):       # residue stream: inexact weight sums; empty cells must stay missing after differencing
         case = A.gen_case(ctx.rng, k=2, N=ctx.rng.choice([9, 14, 25]), general="residue")
         case["ignore"] = True if _ % 2 else case["ignore"]
